@@ -48,27 +48,27 @@ theorem single_level (hwf : t.WF) :
     (computeInitialInfo ds t d false).lastLevel = (cRun d (C02.raw ds t)).lvl.getD 0 :=
   (single_structure ds t d hwf).1
 
-theorem single_classes (hwf : t.WF) (hfsi : C02.FSIWidth ds t) :
+theorem single_classes (hwf : t.WF) :
     (computeInitialInfo ds t d false).classes = Lemmas.C02.expand t.segs (cRun d (C02.raw ds t)).cls :=
-  (single_structure ds t d hwf).2 hfsi
+  (single_structure ds t d hwf).2
 
 theorem cRun_raw_length : (cRun d (C02.raw ds t)).cls.length = t.segs.length := by
   rw [cRun_cls_length]; simp [C02.raw]
 
 /-- the classes read at the first unit of every character -/
-theorem single_contract (hwf : t.WF) (hfsi : C02.FSIWidth ds t) :
+theorem single_contract (hwf : t.WF) :
     Expand.contract t (computeInitialInfo ds t d false).classes .ON = (cRun d (C02.raw ds t)).cls := by
-  rw [single_classes ds t d hwf hfsi]
+  rw [single_classes ds t d hwf]
   have := expand_read t.segs (cRun d (C02.raw ds t)).cls [] [] t.len hwf.tiles (cRun_raw_length ds t d).symm
   simpa [Expand.contract] using this
 
 /-- both modes: all units of a character carry the same class, in the form the `Expand` lemmas use -/
-theorem classes_uniformOn (hwf : t.WF) (hfsi : C02.FSIWidth ds t) (split : Bool) :
+theorem classes_uniformOn (hwf : t.WF) (split : Bool) :
     Expand.UniformOn t (computeInitialInfo ds t d split).classes := by
   intro s hs j hj
   have hlen := C02.C02_classes_length ds t d hwf split
   have hb := segsFrom_mem _ _ _ hwf.tiles s hs
-  have h := C02.C02_classes_uniform ds t d hwf hfsi split s hs j hj
+  have h := C02.C02_classes_uniform ds t d hwf split s hs j hj
   have h1 : s.start + j < (computeInitialInfo ds t d split).classes.length := by omega
   have h2 : s.start < (computeInitialInfo ds t d split).classes.length := by omega
   simp only [List.getD_eq_getElem?_getD, List.getElem?_eq_getElem h1, List.getElem?_eq_getElem h2,
@@ -99,10 +99,10 @@ theorem raw_unitize : C02.raw ds (Expand.unitize t) = C02.raw ds t := (unitize_s
 
 /-- the single-paragraph scan of the unitized text: one class per character, the classes the scan of
     the text itself reports at the character starts -/
-theorem unitize_classes (hwf : t.WF) (hfsi : C02.FSIWidth ds t) :
+theorem unitize_classes (hwf : t.WF) :
     (computeInitialInfo ds (Expand.unitize t) d false).classes
       = Expand.contract t (computeInitialInfo ds t d false).classes .ON := by
-  rw [single_contract ds t d hwf hfsi, single_classes ds _ d (unitize_WF t) (unitize_FSIWidth ds t), raw_unitize]
+  rw [single_contract ds t d hwf, single_classes ds _ d (unitize_WF t), raw_unitize]
   apply expand_unit _ _ (unitize_unit_len t)
   rw [unitize_segs_length, cRun_raw_length]
 
@@ -125,34 +125,34 @@ theorem pbi_levels_eq :
 
 /-- `ParagraphBidiInfo` of the unitized text runs `compute_bidi_info_for_para` on the per-character
     view of the inputs it gets for the text itself -/
-theorem pbi_unitize (hwf : t.WF) (hfsi : C02.FSIWidth ds t) :
+theorem pbi_unitize (hwf : t.WF) :
     (paragraphBidiInfo ds (Expand.unitize t) d).levels =
       (paraLevels ds (computeInitialInfo ds t d false).lastLevel (computeInitialInfo ds t d false).lastPureLtr
         (computeInitialInfo ds t d false).lastHasIso (Expand.unitize t)
         (Expand.contract t (computeInitialInfo ds t d false).classes .ON)).1 := by
-  rw [pbi_levels_eq, unitize_classes ds t d hwf hfsi, unitize_level ds t d hwf, (unitize_flags ds t d).1,
+  rw [pbi_levels_eq, unitize_classes ds t d hwf, unitize_level ds t d hwf, (unitize_flags ds t d).1,
     (unitize_flags ds t d).2]
 
 /-- the general `Expand` lemma gives the instance -/
-theorem PbiExpand_of_ParaLevelsExpand (hwf : t.WF) (hfsi : C02.FSIWidth ds t) (hexp : ParaLevelsExpand ds t) :
+theorem PbiExpand_of_ParaLevelsExpand (hwf : t.WF) (hexp : ParaLevelsExpand ds t) :
     PbiExpand ds t d :=
-  hexp _ _ _ _ (C02.C02_classes_length ds t d hwf false) (classes_uniformOn ds t d hwf hfsi false)
+  hexp _ _ _ _ (C02.C02_classes_length ds t d hwf false) (classes_uniformOn ds t d hwf false)
 
 /-- under the `Expand` hypothesis the levels of `ParagraphBidiInfo` are the expansion of the levels of
     the unitized text, which has one level per character -/
-theorem pbi_levels_expand (hwf : t.WF) (hfsi : C02.FSIWidth ds t) (hexp : PbiExpand ds t d) :
+theorem pbi_levels_expand (hwf : t.WF) (hexp : PbiExpand ds t d) :
     (paragraphBidiInfo ds t d).levels = Expand.expand t (paragraphBidiInfo ds (Expand.unitize t) d).levels ∧
     (paragraphBidiInfo ds (Expand.unitize t) d).levels.length = t.segs.length := by
   constructor
-  · rw [pbi_unitize ds t d hwf hfsi, pbi_levels_eq]
+  · rw [pbi_unitize ds t d hwf, pbi_levels_eq]
     exact hexp
   · rw [pbi_levels_eq, UBidi.Props.C01.Base.paraLevels_length ds _ _ _ _ (unitize_WF t)]
     rfl
 
 /-- per-character levels of `ParagraphBidiInfo` -/
-theorem pbi_contract (hwf : t.WF) (hfsi : C02.FSIWidth ds t) (hexp : PbiExpand ds t d) (x : Nat) :
+theorem pbi_contract (hwf : t.WF) (hexp : PbiExpand ds t d) (x : Nat) :
     Expand.contract t (paragraphBidiInfo ds t d).levels x = (paragraphBidiInfo ds (Expand.unitize t) d).levels := by
-  obtain ⟨h1, h2⟩ := pbi_levels_expand ds t d hwf hfsi hexp
+  obtain ⟨h1, h2⟩ := pbi_levels_expand ds t d hwf hexp
   rw [h1]
   exact contract_expand t hwf _ h2.symm x
 
